@@ -81,6 +81,8 @@ class SimThread:
         if self.stall_until is not None:
             if self.sim.now < self.stall_until:
                 return False
+        if self.inject is not None:
+            return True     # an interrupt reaches a thread while it is blocked
         return self.enabled_fn()
 
     def __repr__(self):
@@ -116,16 +118,18 @@ class Stall:
 
 
 class Interrupt:
-    """Raise `exc_type` in thread `role` at its `index`-th stable operation (the primitive it
-    is parked on raises instead of performing the operation)."""
-    __slots__ = ('role', 'index', 'exc_type', 'fired', 'kinds')
+    """Raise `exc_type` in thread `role` at its `index`-th stable operation -- or, if `kind` is
+    given, at its (n+1)-th operation of that kind (the primitive it is parked on raises instead
+    of performing the operation)."""
+    __slots__ = ('role', 'index', 'exc_type', 'fired', 'kind', 'n')
 
-    def __init__(self, role, index, exc_type=KeyboardInterrupt, kinds=None):
+    def __init__(self, role, index=None, exc_type=KeyboardInterrupt, kind=None, n=None):
         self.role = role
         self.index = index
         self.exc_type = exc_type
         self.fired = False
-        self.kinds = kinds
+        self.kind = kind
+        self.n = n
 
 
 # ---------------------------------------------------------------------------------------------
@@ -446,7 +450,13 @@ class Sim:
         il = self.ints_by_role.get(t.role)
         if il:
             for s in il:
-                if not s.fired and t.nstable == s.index and (s.kinds is None or kind in s.kinds):
+                if s.fired:
+                    continue
+                if s.kind is not None:
+                    hit = (kind == s.kind and t.kind_counts.get(kind, 0) == s.n)
+                else:
+                    hit = (t.nstable == s.index)
+                if hit:
                     s.fired = True
                     t.inject = s.exc_type
                     self.count_fault('interrupt')
